@@ -256,10 +256,11 @@ class VTextTable:
 
 
 class VLitTexts:
-    """(table[l] for l in clause): the texts of the literals of a clause, in order"""
+    """(table[l] for l in clause): the texts of the literals of a clause, in order; or (template.format(x) for x in seq): one
+    formatted piece per element (elem = the piece's template)"""
 
-    def __init__(self, clause):
-        self.clause = clause
+    def __init__(self, clause, elem=None):
+        self.clause, self.elem = clause, elem
 
 
 class VRowText:
@@ -267,6 +268,13 @@ class VRowText:
 
     def __init__(self, sep, clause, prefix='', suffix=''):
         self.sep, self.clause, self.prefix, self.suffix = sep, clause, prefix, suffix
+
+
+class VNested:
+    """buffer.getvalue() [+ suffix]: the whole text written to an in-memory buffer"""
+
+    def __init__(self, trace, suffix=''):
+        self.trace, self.suffix = trace, suffix
 
 
 class VEnum:
@@ -2222,6 +2230,13 @@ class Engine:
             finally:
                 del self.pc[saved:]
                 dem, self.demonic = self.demonic, None
+            if isinstance(body, VFmt) and body.joined is None and not body.split and len(body.args) == 1 and is_z3(body.args[0]):
+                a0 = body.args[0]
+                d0 = z3.simplify(a0 - el)
+                if not _mentions(d0, t):
+                    # [' ' + str(v + c) for v in seq]: one formatted piece per element of seq shifted by a constant
+                    base = it.term if (z3.is_int_value(d0) and d0.as_long() == 0) else specs.ishift(it.term, d0)
+                    return VLitTexts(base, elem=body.template)
             if dem and is_z3(body) and z3.is_int(body):
                 # the element calls a nondeterministic library function (random.choice): one outcome PER position; the result is
                 # some list c with  c[t] == body(seq[t], outcome_t)  for every position t
@@ -2613,6 +2628,8 @@ class Engine:
             if isinstance(x, VOpaque) or (isinstance(x, str) and x.startswith('<')) or (isinstance(x, VFmt) and x.joined is None
                                                                                        and not x.split and any(a is None for a in x.args)):
                 return specs.evopaque
+        if isinstance(x, VNested):
+            return specs.evnest(z3.IntVal(template_id('nest:' + x.suffix)), x.trace)
         if isinstance(x, VRowText):
             return specs.evrow(z3.IntVal(template_id('row:{}[{}]{}'.format(x.prefix, x.sep, x.suffix))), x.clause)
         if isinstance(x, str) and not x.startswith('<'):
@@ -2806,11 +2823,13 @@ class Engine:
         if isinstance(o, VFmt):
             if meth in ('encode', 'decode'):
                 return o                 # re-encoding changes characters inside the holes, not the structure of the text
+            if meth == 'strip' and not args and any(a is None for a in o.args):
+                return o                 # stripping a text with unlooked content: still that unlooked text
             if meth == 'splitlines' and not args and o.joined is None:
                 return VFmt(o.template, o.args, split=True)
             raise Unsupported('method {} of a formatted text'.format(meth))
         if isinstance(o, str) and meth == 'join' and len(args) == 1 and isinstance(args[0], VLitTexts) and not o.startswith('<'):
-            return VRowText(o, args[0].clause)
+            return VRowText(o if args[0].elem is None else o + '|' + args[0].elem, args[0].clause)
         if isinstance(o, str) and meth == 'join' and len(args) == 1 and isinstance(args[0], VFmt) and args[0].split and not o.startswith('<'):
             return VFmt(args[0].template, args[0].args, joined=(o, ''))
         if isinstance(o, VParities):
@@ -2830,6 +2849,8 @@ class Engine:
                 return None
             if meth == 'flush':
                 return None
+            if meth == 'getvalue' and not args:
+                return VNested(o.trace)
             raise Unsupported('method {} of a text stream'.format(meth))
         f = LIST_METHODS.get((type(o).__name__, meth))
         if f:
@@ -3070,6 +3091,7 @@ def sf_evrowt(eng, node, prefix, sep, suffix, clause):
 
 
 SPEC_FUNCS = {
+    'evnest': _wrap(specs.evnest), 'dedges': _wrap(specs.dedges),
     'yxdom': _wrap(specs.yxdom),
     'evopaque': lambda eng, node: VSeq(specs.evopaque), 'opq': _wrap(specs.opq), 'wid': _wrap(specs.wid),
     'ysign': _wrap(specs.ysign), 'ydom': _wrap(specs.ydom),
@@ -3295,6 +3317,23 @@ def b_bool(eng, node, v=False):
     raise Unsupported('bool() of {!r}'.format(v))
 
 
+def b_print(eng, node, *args, file=None, **kw):
+    """print(x, file=stream): one write of x followed by a newline; print to stdout is dropped (no property observes it here)"""
+    if file is None or not isinstance(file, VSink):
+        return None
+    if kw or len(args) != 1:
+        raise Unsupported('print with several values or options')
+    x = args[0]
+    if isinstance(x, VNested):
+        x = VNested(x.trace, x.suffix + '\n')
+    elif isinstance(x, VOpaque) or (isinstance(x, str) and x.startswith('<')):
+        pass
+    else:
+        x = eng.binop(ast.Add(), x, '\n', node)
+    file.trace = specs.csnoc(file.trace, eng.write_event(x, node))
+    return None
+
+
 def b_isgenerator(eng, node, v):
     # declared-type decision (DESIGN 2.1): abstract sequences and concrete lists are not generators
     return False
@@ -3390,7 +3429,7 @@ def _empty_pairset():
     return z3.Lambda([z3.Int('ps!x'), z3.Int('ps!y')], z3.BoolVal(False))
 
 
-BUILTINS = {'str': b_str, 'bool': b_bool, 'set': b_set, 'all': b_allany_raw, 'any': b_allany_raw, 'sorted': lambda eng, node, seq, key=None: lib_sorted(eng, node, seq, key), 'len': b_len, 'abs': b_abs, 'min': b_minmax('min'), 'max': b_minmax('max'), 'range': b_range,
+BUILTINS = {'print': b_print, 'str': b_str, 'bool': b_bool, 'set': b_set, 'all': b_allany_raw, 'any': b_allany_raw, 'sorted': lambda eng, node, seq, key=None: lib_sorted(eng, node, seq, key), 'len': b_len, 'abs': b_abs, 'min': b_minmax('min'), 'max': b_minmax('max'), 'range': b_range,
             'list': b_list, 'tuple': b_list, 'isinstance': b_isinstance, 'int': b_int, 'zip': b_zip,
             'enumerate': b_enumerate, 'sum': b_sum_raw, 'next': b_next, 'iter': lambda eng, node, v: v}
 
@@ -3695,6 +3734,8 @@ def lib_random_sample(eng, node, pop, k):
     return r
 
 
+LIBRARY['io.StringIO'] = lambda eng, node: VSink(specs.cnil)
+LIBRARY['StringIO'] = LIBRARY['io.StringIO']        # `from io import StringIO` inside a function body
 LIBRARY['random.randint'] = lib_random_randint
 LIBRARY['random.sample'] = lib_random_sample
 LIBRARY['random.seed'] = lambda eng, node, *a: None
